@@ -46,27 +46,29 @@ package fs
 //@   callsite (CASFileSystem).openFollowing a_measure_decreases_at_every_hop [C29]: \
 //@      arg_hops == hops + 1 && maxSymlinkHops - arg_hops >= 0 && maxSymlinkHops - arg_hops < maxSymlinkHops - hops
 //
-// ReadDir. Proved: a call with n <= 0 lists every directory, file and symlink of the node (counting
-// invariants), and a call with n > 0 returns at most n entries. The two further requirements of
-// io/fs.ReadDirFile for n > 0 — successive calls continue where the last one stopped, and the end of the
-// directory is reported as io.EOF — do not hold: every call starts again from the first entry (the type keeps
-// no position) and the error is always nil. Recorded as a known finding (region: n > 0).
+// ReadDir (io/fs.ReadDirFile): the full listing is every directory, file and symlink of the node, in that order
+// (counting invariants); a call returns the entries from the current offset on — all of them for n <= 0, at most
+// n for n > 0 — advances the offset by what it returned, and with n > 0 reports the end of the directory as
+// io.EOF with no entries. (Successive chunked calls therefore continue and terminate; this was a recorded known
+// finding until repaired in /repo.)
 //@ assume func newDirInfo
 //@   modifies nothing
 //@ assume func newFileInfo
 //@   modifies nothing
 //@ assume func newSymlinkInfo
 //@   modifies nothing
-//@ spec chunked(n int) bool = n > 0
 //@ func (dir).ReadDir
-//@   requires p != nil && p.pb != nil
-//@   opt nopanic=off
+//@   requires p != nil && p.pb != nil && p.offset >= 0
+//@   requires forall i int :: 0 <= i && i < len(p.pb.Directories) ==> p.pb.Directories[i] != nil
 //@   opt inline=off
 //@   opt precall=off
-//@   invariant "range p.pb.Directories" count: len(ret) == idx && (n > 0 ==> len(ret) <= n)
-//@   invariant "range p.pb.Files" count: len(ret) == len(p.pb.Directories) + idx && (n > 0 ==> len(ret) <= n)
-//@   invariant "range p.pb.Symlinks" count: len(ret) == len(p.pb.Directories) + len(p.pb.Files) + idx && (n > 0 ==> len(ret) <= n)
-//@   ensures complete_listing [C29]: n <= 0 ==> result1 == nil && \
-//@      len(result0) == len(p.pb.Directories) + len(p.pb.Files) + len(p.pb.Symlinks)
+//@   invariant "range p.pb.Directories" count: len(all) == idx
+//@   invariant "range p.pb.Files" count: len(all) == len(p.pb.Directories) + idx
+//@   invariant "range p.pb.Symlinks" count: len(all) == len(p.pb.Directories) + len(p.pb.Files) + idx
+//@   ensures the_rest_of_the_listing [C29]: n <= 0 ==> result1 == nil && \
+//@      len(result0) == max(0, len(p.pb.Directories) + len(p.pb.Files) + len(p.pb.Symlinks) - old(p.offset))
 //@   ensures at_most_n [C29]: n > 0 ==> len(result0) <= n
-//@   ensures end_of_directory_is_eof [C29 except=chunked]: len(result0) == 0 && n > 0 ==> result1 == io.EOF
+//@   ensures continues_where_it_stopped [C29]: result1 == nil ==> \
+//@      p.offset == min(old(p.offset), len(p.pb.Directories) + len(p.pb.Files) + len(p.pb.Symlinks)) + len(result0)
+//@   ensures end_of_directory_is_eof [C29]: n > 0 ==> ((len(result0) == 0) == (result1 == io.EOF)) && (result1 == nil || result1 == io.EOF)
+//@   ensures progress [C29]: n > 0 && old(p.offset) < len(p.pb.Directories) + len(p.pb.Files) + len(p.pb.Symlinks) ==> len(result0) > 0
